@@ -51,6 +51,8 @@ def run(ck, ctx):
         _c08._r082(_Only(ck, {"R08.2": "R06.11"}), prog, cfg)
         _c08._r083(_Only(ck, {"R08.3": "R06.11"}), prog, cfg)
         _c08.r0812(ck, prog, cfg, "R06.11")
+        from . import c07 as _c07i
+        _c07i.r076(ck, prog, cfg, "R06.11")
         _r061(ck, prog, cfg)
         _r062(ck, prog, cfg)
         _r063(ck, prog, cfg)
